@@ -1426,6 +1426,10 @@ class Walker:
             return out
         if it[0] in ('tuple', 'list') and len(it[1]) <= 32 and not any(e[0] == 'star' for e in it[1]) and not node.orelse:
             return self.unrolled_for(node, it, st, done)
+        if (it[0] == 'call' and it[1] == 'filter' and len(it[2]) == 2 and not it[3] and it[2][0] == C(None) and it[2][1][0] in ('tuple', 'list')
+                and len(it[2][1][1]) <= 6 and not any(e[0] == 'star' for e in it[2][1][1]) and not node.orelse):
+            # for x in filter(None, [a, b]): the body runs for the elements that are truthy, in order
+            return self.unrolled_for(node, it[2][1], st, done, only_truthy=True)
         pl = self.polling_iter(node)
         if pl is not None:
             # for x in iter(<callable>, sentinel): body    is    while True: x = <callable>(); if x == sentinel: break; body
@@ -1555,12 +1559,28 @@ class Walker:
         ast.fix_missing_locations(comp)
         return it.func.value, comp
 
-    def unrolled_for(self, node, it, st, done):
-        """`for x in (<literal elements>)`: the body is walked once per element, in order."""
+    def unrolled_for(self, node, it, st, done, only_truthy=False):
+        """`for x in (<literal elements>)`: the body is walked once per element, in order (with only_truthy: for the elements
+        that are truthy - the others are skipped, which forks the path on each element's truthiness)."""
         states = [st]
         exited = []
         for e in it[1]:
             nxt = []
+            if only_truthy:
+                forked = []
+                for s in states:
+                    d = self.decide(e, s)
+                    for pol in (True, False):
+                        if d in (None, pol):
+                            s2 = s.clone() if d is None else s
+                            self.assume(e, pol, s2)
+                            s2.conds.append((e, pol, node))
+                            s2.events.append(('cond', e, pol, node))
+                            if pol:
+                                forked.append(s2)
+                            else:
+                                nxt.append(s2)
+                states = forked
             for s in states:
                 self.assign(node.target, e, s, node)
                 inner_done = []
